@@ -60,7 +60,7 @@ def gen_script(rng, scenario, knobs):
             else:
                 d['a'], d['b'] = rng.sample(nicks, 2)
                 d['duration'] = round(rng.choice([rng.uniform(2, 9), rng.uniform(10, 30), rng.uniform(30, 70)]), 2)
-                d['both'] = rng.random() < 0.7
+                d['both'] = rng.random() < knobs.get('both_p', 0.7)
         if kind in ('user_restart_shutdown', 'user_shutdown_restart'):
             d['delay2'] = round(rng.choice([0.0, 0.05, 0.3, 1.0, 2.5, 6.0]), 2)
         if rng.random() < knobs.get('trigger_p', 0.0):
